@@ -5,7 +5,7 @@
   side channel of 32-bit stereo is covered at kernel level by `wide_*_refines_spec`).
 -/
 import FlacModel.Props.C03
-import FlacModel.Props.C01b
+import FlacModel.Proofs.DecodeFacts
 import FlacModel.Proofs.CodecConv
 import FlacModel.Proofs.CrcEq
 
@@ -87,7 +87,7 @@ theorem finish_wasted (p : Profile) (w : Nat) (hw : w < 32) (ys : List Int)
     (if w > 0 then mapM' (wastedShl p 32 w) ys else .ok ys) = .ok (ys.map (· * 2 ^ w)) := by
   by_cases h0 : w > 0
   · rw [if_pos h0]
-    exact Flac.C01.mapM'_wasted p w hw ys (fun y hy => hfit _ (List.mem_map.mpr ⟨y, hy, rfl⟩))
+    exact Flac.mapM'_wasted p w hw ys (fun y hy => hfit _ (List.mem_map.mpr ⟨y, hy, rfl⟩))
   · rw [if_neg h0]
     have : w = 0 := by omega
     subst this
@@ -114,7 +114,7 @@ theorem decodeSub_spec (p : Profile) (bs d : Nat) (hd : d ≤ 32) (s : Subframe)
   | fixed o warm res =>
     obtain ⟨ho, _, _, _, _⟩ := hb
     simp only [decodeSub, Spec.subframeSamples, fixedCoefs_eq o ho] at hfit ⊢
-    obtain ⟨c1, c2, _⟩ := Flac.C01.fixedCoeffs_ok o
+    obtain ⟨c1, c2, _⟩ := Flac.fixedCoeffs_ok o
     have := predict_refines_spec p (fixedCoeffs.getD o []) 0 (by decide) c1 c2 res.residuals warm.reverse
       (unscaled_fit wasted _ hfit)
     simp only [predict, this]
